@@ -221,6 +221,10 @@ def sample(ctx, budget=1.0, hint=None, broken=None):
                 scale = 1.0 if cls == 'float' else r.choice([1e-6, 1e-3, 1.0, 1e3])
                 if i > 0 and r.random() < 0.15:
                     segs.append(P.Line(cur, cur))          # zero-length, non-leading
+                elif r.random() < 0.12:
+                    # a segment that ends where it starts but is NOT zero-length: a closed cubic loop / an out-and-back quadratic
+                    a_, b_ = complex(r.uniform(0.5, 3), r.uniform(0.5, 3)) * scale, complex(r.uniform(-3, -0.5), r.uniform(0.5, 3)) * scale
+                    segs.append(P.CubicBezier(cur, cur + a_, cur + b_, cur) if r.random() < 0.7 else P.QuadraticBezier(cur, cur + a_, cur))
                 else:
                     segs.append(_rand_seg(spt, r, cur, scale, kind=None if cls == 'float' else r.choice(['line', 'quad', 'cubic'])))
                 cur = segs[-1].end
@@ -236,7 +240,12 @@ def sample(ctx, budget=1.0, hint=None, broken=None):
             j = r.randrange(n)
             warm = r.random() < 0.6
             if warm:      # fill the length caches first: the edits below must invalidate what they touch
-                path.length(); path.point(0.3)
+                try:
+                    path.length(); path.point(0.3)
+                except Exception as e:
+                    fail('Path.point/raises', 'length() / point(0.3) raised', {'path': desc, 'T': 0.3}, repr(e)[:200], 'a point',
+                         '(lambda p: (p.length(), p.point(0.3)))(svgpathtools.%s)' % desc.replace('\n', ' '))
+                    continue
                 desc += ' then length(), point(0.3)'
             new = _rand_seg(spt, r, segs[j].start + 0, 1.0, 'line')
             new = P.Line(new.start, new.end + complex(0.5, 7.25))
@@ -322,7 +331,7 @@ def sample(ctx, budget=1.0, hint=None, broken=None):
             samples.append({'path': desc[:300], 'T': Ts[:3]})
     return {'evaluations': n_eval, 'distinct_nontrivial': len(nontriv), 'failures': fails, 'samples': samples,
             'rule': 'random paths of 1..6 segments (float mixes incl. arcs, dyadic axis-aligned lines with exact boundaries, very unequal scales, '
-                    'zero-length non-leading segments, continuous or with gaps), optional item assignment first; T random, quarter points and '
+                    'zero-length non-leading segments, closed cubic loops and out-and-back quadratics (start == end, positive length), continuous or with gaps), optional item assignment first; T random, quarter points and '
                     'segment boundaries. distinct = distinct (class, n, continuous?, has zero-length)'}
 
 
